@@ -183,10 +183,12 @@ def run(tier, seed):
     ck.extra["certificates"] = {"obligations": len(obs), "states": sum(i["states"] for i in obs.values()),
                                 "witness_obligations": sorted(n for n, i in obs.items() if i["outcome"] == "witness")}
     # ---- 2 prove
-    ck.prove("ScrapliProps.C05", lemma_files=["ScrapliProps/C05Lemmas.lean", "ScrapliModel/Regex/Lemmas.lean", "ScrapliModel/Regex/Cert.lean",
-                                               "ScrapliModel/Regex/Basic.lean", "ScrapliModel/PromptClass.lean",
-                                               "ScrapliModel/Spec/PromptGrammar.lean", "ScrapliModel/C05Obligations.lean"]
-             + [f"ScrapliProps/C05/{n}.lean" for n in obs])
+    lemma_files = ["ScrapliProps/C05Lemmas.lean", "ScrapliModel/Regex/Lemmas.lean", "ScrapliModel/Regex/Cert.lean",
+                   "ScrapliModel/Regex/Basic.lean", "ScrapliModel/PromptClass.lean", "ScrapliModel/Spec/PromptGrammar.lean",
+                   "ScrapliModel/C05Obligations.lean"] + [f"ScrapliProps/C05/{n}.lean" for n in obs]
+    ck.prove("ScrapliProps.C05", lemma_files=lemma_files)
+    # generated verdicts on the unrestricted grammars of the finding modes (refuted while the defect exists, proved after a fix)
+    ck.prove("ScrapliProps.C05Full")
     ck.obligations += len(obs)
     ck.discharged += sum(1 for n, i in obs.items() if i["outcome"] == "cert") if not any(b[0] == "proof" for b in ck.broken) else 0
     if tier == "thorough":
